@@ -497,7 +497,7 @@ theorem walkLoopP_fields (r : Nat) (dr : DonorR α) :
             simp only [walkLoopP, h1] at h
             simp only [bne_iff_ne, ne_eq, reduceCtorEq, not_false_eq_true, if_true, Prod.mk.injEq] at h
             obtain ⟨_, rfl, _⟩ := h
-            simp [h1] at he
+            simp at he
         · rw [hp, h2]
     · have : (a.mode != AMode.walking) = true := by simp [hw]
       simp only [this, if_true, Prod.mk.injEq] at h
